@@ -221,6 +221,9 @@ def run(ctx):
                       f"does not reproduce the RHF energy")
     if n2 < 4:
         raise AnalysisError("_one_center_u terms not found")
+    # the same terms against the first-principles oracle for arbitrary spin densities (shared with C06-R3)
+    from .c06 import one_center_first_principles
+    one_center_first_principles(ctx, repo, "R2")
     tu = fu.func("_two_center_u")
     pp = [st for st in ast.walk(tu) if isinstance(st, ast.Assign) and norm(st.targets[0]) == "Pp" and "mask" in norm(st.value)]
     ctx.check(bool(pp) and norm(pp[0].value).replace(" ", "") == "-P_spin[:,mask]", "R2", fu, pp[0] if pp else tu, "_two_center_u", pp[0] if pp else "Pp",
